@@ -208,7 +208,7 @@ Init ==
 StartCase ==
   /\ l <= Len(Ev) /\ Ev[l].cls = "case"
   /\ cs' = [case |-> Ev[l].case, skip |-> FALSE,
-            probed |-> Ev[l].chk11 \/ Ev[l].chk12 # "" \/ Ev[l].chk13 \/ Ev[l].probed, c |-> Ev[l]]
+            probed |-> Ev[l].chk11 \/ Ev[l].chk12 # "" \/ Ev[l].chk13 # "" \/ Ev[l].probed, c |-> Ev[l]]
   /\ st' = <<>> /\ slots' = <<>> /\ l' = l + 1 /\ UNCHANGED nbad
 
 Skip ==
